@@ -33,7 +33,7 @@ class C38(EngineDCheck):
                    'seeded walks give a lower bound of the reachable outcomes; the union with what any exploration '
                    'reached is the reference (every element was produced by a real execution)',
                    'explorations that hit the wall cap (none: 90 s, reduced: 60 s) are not judged']
-    budgets = {'quick': dict(runs=36, wall=55), 'thorough': dict(runs=900, wall=900)}
+    budgets = {'quick': dict(runs=36, wall=40), 'thorough': dict(runs=900, wall=900)}
     replay_paths_per_config = 3
 
     def gen(self, seed, tier):
